@@ -311,8 +311,120 @@ class EndToEnd(e2.Case):
                 what="%s: the depth-2 tile does not contain the point" % self.name)
 
 
+class _FitNP:
+    """numpy stand-in for the least-squares part of toast_pixel_for_point (symbolic world only): everything is the
+    symbolic shim except the pieces that cannot be encoded, which get their mathematical meaning ON AN AFFINE GRID:
+      argmin(dist2)          -> the flat index of the pixel the harness declared nearest to the point
+      array([...]).T, lstsq  -> the exact least-squares solution when the fitted target is an affine function of the
+                                two coordinates (residual 0): target(lon, lat) = b[0] + (b[1]-b[0]) * (lon - lon_[0]) / dlon
+                                                                                + (b[w]-b[0]) * (lat - lat_[0]) / dlat
+                                evaluated from the FIRST stamp element and the stamp's own width w (np.indices' argument)."""
+
+    def __init__(self, shim, nearest, dlon, dlat):
+        self._shim, self._nearest, self._dlon, self._dlat = shim, nearest, dlon, dlat
+        self._stamp_shape = None
+        self.linalg = self
+
+    def __getattr__(self, n):
+        return getattr(self._shim, n)
+
+    def argmin(self, a, *args, **kw):
+        return self._nearest[0] * 256 + self._nearest[1]
+
+    def unravel_index(self, k, shape):
+        return (symx.sym_int(k) // shape[1], symx.sym_int(k) % shape[1]) if isinstance(k, symx.SymInt) else _np.unravel_index(k, shape)
+
+    def indices(self, shape):
+        from vlib.symnp import SArr
+        self._stamp_shape = tuple(shape)
+        return (SArr(tuple(shape), _np.dtype("int64"), lambda idx: idx[0]), SArr(tuple(shape), _np.dtype("int64"), lambda idx: idx[1]))
+
+    class _Design:
+        def __init__(self, cols):
+            self.cols = cols
+
+        @property
+        def T(self):
+            return self
+
+    def array(self, obj, *a, **k):
+        from vlib.symnp import SArr
+        if isinstance(obj, list) and obj and isinstance(obj[1], SArr):
+            return _FitNP._Design(obj)
+        if isinstance(obj, list):
+            return list(obj)
+        return self._shim.array(obj, *a, **k)
+
+    def lstsq(self, A, b, rcond=None):
+        return ("COEFF", A, b), None, None, None
+
+    def dot(self, coeff, pt):
+        _tag, A, b = coeff
+        lon_, lat_ = A.cols[1], A.cols[2]            # columns of the design matrix: 1, lon, lat, lon^2, lon*lat, lat^2
+        w = self._stamp_shape[1]
+        b0 = R(b.get((0,)))
+        dcol = R(b.get((1,))) - b0                   # target step per column of the stamp
+        drow = R(b.get((I(w),))) - b0                # target step per row of the stamp
+        l0, a0 = lon_.get((0,)).val, lat_.get((0,)).val
+        return symx.SymReal(z3.ToReal(b0) if z3.is_int(b0) else b0) + symx.SymReal(dcol * (R(pt[1]) - l0) / self._dlon) + symx.SymReal(drow * (R(pt[2]) - a0) / self._dlat)
+
+
+class PixelStamp(e2.Case):
+    """toast_pixel_for_point's fit on an AFFINE pixel grid (lon = lon0 + c*d, lat = lat0 - r*d): the returned fractional
+    position must be the point's true fractional position, wherever in the tile the nearest pixel lies (symbolic,
+    including the rows / columns where the 9x9 fitting stamp is truncated by the tile edge)."""
+
+    D = 1.0 / 1024
+
+    def __init__(self):
+        self.name = "pixel-stamp"
+        self.max_paths = 200
+
+    def run(self, w):
+        d = self.D
+        ky = w.int("ky", 0, 255)
+        kx = w.int("kx", 0, 255)
+        lon0 = w.real("lon0", 0.5, 5.0)
+        lat0 = w.real("lat0", -1.0, 1.0)
+        fx = w.real("fx", -0.5, 0.5)            # the point, as an offset from the centre of its nearest pixel (pixel units)
+        fy = w.real("fy", -0.5, 0.5)
+        if w.symbolic:
+            lon = symx.SymReal(R(lon0) + (z3.ToReal(I(kx)) + R(fx)) * symx.q(d))
+            lat = symx.SymReal(R(lat0) - (z3.ToReal(I(ky)) + R(fy)) * symx.q(d))
+            from vlib.symnp import SArr, FElem
+            lons = SArr((256, 256), _np.dtype("float64"), lambda idx: FElem(z3.BoolVal(False), R(lon0) + z3.ToReal(idx[1]) * symx.q(d)))
+            lats = SArr((256, 256), _np.dtype("float64"), lambda idx: FElem(z3.BoolVal(False), R(lat0) - z3.ToReal(idx[0]) * symx.q(d)))
+            fit_np = _FitNP(w.np, (ky, kx), symx.q(d), -symx.q(d))
+        else:
+            lon = lon0 + (kx + fx) * d
+            lat = lat0 - (ky + fy) * d
+            lons = _np.tile(lon0 + _np.arange(256) * d, (256, 1))
+            lats = _np.tile((lat0 - _np.arange(256) * d)[:, None], (1, 256))
+        tile = Tile(Pos(5, 3, 4), ((0, 0),) * 4, True)
+        saved = (tt.toast_tile_for_point, tt.toast_tile_get_coords)
+        tt.toast_tile_for_point = lambda depth, la, lo_, coordsys=None: tile
+        tt.toast_tile_get_coords = lambda t: (lons, lats)
+        try:
+            if w.symbolic:
+                with w.patched(tt, names=("np", "max", "min"), extra={"np": fit_np}):
+                    t, x, y = tt.toast_pixel_for_point(5, lat, lon)
+            else:
+                t, x, y = tt.toast_pixel_for_point(5, lat, lon)
+        finally:
+            tt.toast_tile_for_point, tt.toast_tile_get_coords = saved
+        return dict(x=x, y=y, kx=kx, ky=ky, fx=fx, fy=fy, same_tile=t is tile)
+
+    def claims(self, w, o):
+        tx = z3.ToReal(I(o["kx"])) + R(o["fx"])
+        ty = z3.ToReal(I(o["ky"])) + R(o["fy"])
+        x, y = R(o["x"]), R(o["y"])
+        w.claim("returned-position-is-the-points-position", z3.And(x - tx <= 2, tx - x <= 2, y - ty <= 2, ty - y <= 2, o["same_tile"]),
+                probe=lambda ro, val: abs(float(ro["x"]) - (ro["kx"] + ro["fx"])) <= 2 and abs(float(ro["y"]) - (ro["ky"] + ro["fy"])) <= 2,
+                what="toast_pixel_for_point on an affine pixel grid: the returned fractional pixel is more than 2 pixels from the point's position (nearest pixel at a symbolic place, incl. the tile's border rows / columns where the fitting stamp is truncated)")
+
+
 def cases(tier):
-    out = []
+    out = [PixelStamp()]
     D = DEPTH[tier]
     for planetary in (False, True):
         for q in range(4):
@@ -422,7 +534,7 @@ def check(run):
     run.assume("the point's Cartesian direction is tied to its longitude only by the sign facts of sin / cos (sound abstraction of _equ_to_xyz; latitude free)",
                "tile corners / edge normals are the concrete doubles computed by the real geometry code; edge tests evaluated exactly (rationals) on them",
                "builtin min inside toasty.toast replaced by a branch-free symbolic equivalent; _create_level1_tiles replaced by [T] to start one loop iteration at T")
-    run.outside("depths beyond %d" % D, "the <= 2 pixel accuracy of toast_pixel_for_point's least-squares fit itself (np.linalg.lstsq; not encodable) — only the consistency of the longitude branch it compares on is decided (pixel-branch)",
+    run.outside("depths beyond %d" % D, "the <= 2 pixel accuracy of toast_pixel_for_point's least-squares fit on a real (curved) TOAST grid (np.linalg.lstsq; not encodable) — decided are the consistency of the longitude branch it compares on (pixel-branch) and the stamp / origin arithmetic around the fit on an affine grid, where the exact least-squares solution is known in closed form (pixel-stamp)",
                 "float rounding inside _equ_to_xyz and the dot products of the real test")
     run.composition.append("level-1 + step(T) for all T of levels 1..D-1 => by induction the depth-d tile holds the point within d*gamma; nesting because depth d+1 extends the same deterministic prefix (step: picks-a-child)")
     only = getattr(run, "only", None)
